@@ -103,7 +103,9 @@ def validate(params):
                     if model.is_search_string(s):
                         continue
                     p = pm.render(n, t.fields(s))
-                    if p is None or pm.templates[n].parse(p) is None:
+                    if p is None:
+                        continue      # (a configuration may know fewer values than the Sid configuration)
+                    if pm.templates[n].parse(p) is None:
                         problems.append("reference cannot parse its own rendering for %s" % n)
                         break
             # one-to-one mappings
